@@ -5,7 +5,9 @@ THIN SPACE, IDEOGRAPHIC SPACE} x logit mode in {peaky+aligned, diffuse, too shor
 no window), unknown window [None,None]} x min_line_confidence in {0, 0.5} x baseline shape in {2-point, 4-point slanted};
 (ii) structure sweep: 0..2 regions x 0..3 lines with blank / non-blank transcriptions in every position, region boxes
 touching / not touching each page edge, integer and fractional coordinates;
-(iii) Arabic lines: all strings <= La over {beh, alef, x, 1, ' '} in alignable and fallback mode;
+(ii-b) all ordered pairs and triples of lines over a 7-text alphabet mixing Latin / Arabic script and word-border punctuation,
+     in one block or two, alignable or without logits (a line's words must not depend on its neighbours);
+ (iii) Arabic lines: all strings <= La over {beh, alef, x, 1, ' '} in alignable and fallback mode;
 (iv) logical/label order conversion: ALL strings of length <= Lo over {beh, alef, x, 1, ' ', '.', arabic comma}.
 
 Oracle: parsed output vs the words of str.split(); print-space arithmetic on the written attributes; re-import.
@@ -19,12 +21,12 @@ ID = 'C06'
 
 MANIFEST = dict(
     technique='explicit-state enumeration of the transcription input tree x logit modes x confidence filter x baseline shapes, a page-structure lattice, and all short strings for the Arabic order conversion; real to_altoxml_string / from_altoxml_string / ArabicHelper vs split()-based reference',
-    text='Bounded exhaustive: every transcription of length <= 3 (quick) / 4 (thorough) over an 8-symbol alphabet (in-charset, out-of-charset, five kinds of white space) in 6 logit modes x 2 confidence filters x 2 baseline shapes, and one level deeper in the two export branches (alignment / fallback); every page structure of 0-2 regions x 0-3 lines with blank/non-blank text and region boxes touching or not touching each page edge; Arabic lines up to length 4; every string up to length 6 / 7 over a 7-symbol mixed Arabic/Latin/digit/delimiter alphabet for the order conversion. Export must not raise, must parse, list every non-blank line once and in order with exactly the split() words (logical order on Arabic lines), write integer geometry, a print space equal to the bounding box of the blocks with margins tiling the page, WC in [0,1], drop only lines below the requested confidence, and re-import must return the same words.',
+    text='Bounded exhaustive: every transcription of length <= 3 (quick) / 4 (thorough) over an 8-symbol alphabet (in-charset, out-of-charset, five kinds of white space) in 7 logit modes x 2 confidence filters x 2 baseline shapes, and one level deeper in the two export branches (alignment / fallback); every page structure of 0-2 regions x 0-3 lines with blank/non-blank text and region boxes touching or not touching each page edge; Arabic lines up to length 4; every string up to length 6 / 7 over a 7-symbol mixed Arabic/Latin/digit/delimiter alphabet for the order conversion. Export must not raise, must parse, list every non-blank line once and in order with exactly the split() words (logical order on Arabic lines), write integer geometry, a print space equal to the bounding box of the blocks with margins tiling the page, WC in [0,1], drop only lines below the requested confidence, and re-import must return the same words.',
     note='Posteriors are synthetic; strings longer than the bound and characters outside the alphabets are not explored.',
     ref='3/C06')
 
 ALPHA = ['a', 'b', 'c', ' ', ' ', '\t', ' ', '　']
-MODES = ['aligned', 'diffuse', 'short', 'absent', 'legacy', 'nowindow']
+MODES = ['aligned', 'diffuse', 'short', 'absent', 'legacy', 'nowindow', 'tight']
 MINCONF = [0.0, 0.5]
 BASELINES = ['straight2', 'slanted4']
 AR = ['ب', 'ا', 'x', '1', ' ']
@@ -60,6 +62,8 @@ def shards(tier):
             for p in itertools.product(range(n), repeat=2):
                 out.append({'kind': 'text', 'L': L, 'prefix': list(p), 'reduced': L > b['L']})
     out.append({'kind': 'structure'})
+    for i in range(len(MULTI_TEXTS)):
+        out.append({'kind': 'multi', 'first': i})
     for L in range(1, b['La'] + 1):
         out.append({'kind': 'arabic', 'L': L})
     for L in range(0, b['Lo'] + 1):
@@ -79,6 +83,8 @@ REGION_BOXES = [
     [[30.6, 20.4], [350.5, 20.4], [350.5, 170.7], [30.6, 170.7]],   # fractional
 ]
 LINE_TEXTS = [None, '   ', 'a b']
+# lines whose export must not depend on their neighbours (script detection, punctuation at word borders)
+MULTI_TEXTS = ['ab', 'a, b.', 'x-y: "b"', 'با', 'ب ا', 'اب, x.', '1 2']
 
 
 def run_shard(shard, ctx, tier):
@@ -104,6 +110,12 @@ def run_shard(shard, ctx, tier):
                         continue
                     for texts in itertools.product(range(len(LINE_TEXTS)), repeat=total):
                         guarded_check(mod, {'structure': {'boxes': list(boxes), 'counts': list(cnt), 'texts': list(texts)}}, ctx)
+    elif shard['kind'] == 'multi':
+        n = len(MULTI_TEXTS)
+        for rest in itertools.chain(itertools.product(range(n), repeat=1), itertools.product(range(n), repeat=2)):
+            for mode in ('aligned', 'absent'):
+                for split in (0, 1):
+                    guarded_check(mod, {'multi': [shard['first']] + list(rest), 'mode': mode, 'split': split}, ctx)
     elif shard['kind'] == 'arabic':
         for s in itertools.product(range(len(AR)), repeat=shard['L']):
             guarded_check(mod, {'arabic': list(s)}, ctx)
@@ -132,6 +144,20 @@ def make_logits(text, mode, charset):
             rows += [l, blank]
         for _ in range(pad):
             rows.append(blank)
+        M = np.full((len(rows), C), -6.0)
+        for t, s in enumerate(rows):
+            M[t, s] = 6.0
+        M += np.linspace(0.01, 0.02, M.size).reshape(M.shape)
+    elif mode == 'tight':
+        # one frame per character, a blank only where CTC needs one (between equal labels), then trailing blanks; no padding
+        rows, prev = [], None
+        for l in labels:
+            if l == prev:
+                rows.append(blank)
+            rows.append(l)
+            prev = l
+        rows += [blank, blank]
+        pad = 0
         M = np.full((len(rows), C), -6.0)
         for t, s in enumerate(rows):
             M[t, s] = 6.0
@@ -322,7 +348,7 @@ def check_text(case, ctx):
             continue
         ws = text.split()
         ctx.outcome((len(ws), mode))
-        if len(ws) >= 2 and mode in ('aligned', 'diffuse', 'nowindow'):
+        if len(ws) >= 2 and mode in ('aligned', 'diffuse', 'nowindow', 'tight'):
             ctx.nontrivial((text, mode), 'multi-word-aligned')
         if any(ch in text for ch in ALPHA[4:]) and ws:
             ctx.tag('non-ascii-or-tab-white-space')
@@ -355,6 +381,26 @@ def check_structure(case, ctx):
         ctx.outcome(('structure', len(regs), sum(len(b['lines']) for b in doc['blocks'])))
         if len(regs) == 2:
             ctx.nontrivial(('structure', tuple(st['boxes']), tuple(st['counts']), tuple(st['texts'])), 'two-region-pages')
+
+
+def check_multi(case, ctx):
+    texts = [MULTI_TEXTS[i] for i in case['multi']]
+    cs = ['a', 'b', 'x', 'y', ' ', 'ب', 'ا', '​']
+    lines = [make_line(f'l{k}', t, case['mode'], y=30 + 45 * k, charset=cs) for k, t in enumerate(texts)]
+    if case['split']:
+        regs = [('r1', REGION_BOXES[0], lines[:1]), ('r2', REGION_BOXES[1], lines[1:])]
+    else:
+        regs = [('r1', REGION_BOXES[0], lines)]
+    page = make_page(regs)
+    ctx.state(('multi', tuple(case['multi']), case['mode'], case['split']))
+    desc = f'lines {texts} mode={case["mode"]} in {"two blocks" if case["split"] else "one block"}'
+    doc = check_export(page, 0.0, ctx, f'{ID}/multi-{case["mode"]}', desc, case)
+    if doc is not None:
+        ah = arabic_helper()
+        kinds = {ah.is_arabic_line(t) for t in texts}
+        if len(kinds) == 2:
+            ctx.nontrivial(('multi', tuple(case['multi']), case['mode'], case['split']), 'mixed-script-pages')
+        ctx.outcome(('multi', tuple(len(t.split()) for t in texts)))
 
 
 def check_arabic(case, ctx):
@@ -398,6 +444,8 @@ def check_case(case, ctx):
         check_text(case, ctx)
     elif 'structure' in case:
         check_structure(case, ctx)
+    elif 'multi' in case:
+        check_multi(case, ctx)
     elif 'arabic' in case:
         check_arabic(case, ctx)
     else:
@@ -417,7 +465,7 @@ def describe(tier):
         'assumptions': ['print space compared exactly for integer region coordinates, within 2 px for fractional ones (values are truncated separately)',
                         'a line counts as dropped iff the confidence the export stored on it is below min_line_confidence'],
         'min_nontrivial': 100,
-        'required_tags': ['multi-word-aligned', 'two-region-pages', 'arabic-line-exported', 'order-conversion-reorders',
+        'required_tags': ['mixed-script-pages', 'multi-word-aligned', 'two-region-pages', 'arabic-line-exported', 'order-conversion-reorders',
                           'non-ascii-or-tab-white-space', 'fallback-branch', 'line-dropped-by-confidence-filter',
                           'print-space-not-reaching-page-edge'],
     }
